@@ -12,9 +12,12 @@ EXTENDS Naturals, Sequences, FiniteSets
 
 \* the harness's Go type universe (harness/scn/types.go): T1,T2 implement I1; T2,T3 implement I2
 \* U1 is the unnamed type struct{ID int}: assignable from and to every Tk but identical to none
-Concrete == {"T1", "T2", "T3", "T4", "T5", "T6", "U1"}
-Ifaces   == {"I1", "I2"}
-Impl     == {<<"T1", "I1">>, <<"T2", "I1">>, <<"T2", "I2">>, <<"T3", "I2">>}
+\* PE is a pointer type implementing the interface type E = error (Convert to error is a corner of C10);
+\* L1 and L2 are two distinct types that PRINT the same name (declared in different scopes) - they never
+\* occur together in one scenario
+Concrete == {"T1", "T2", "T3", "T4", "T5", "T6", "U1", "PE", "L1", "L2"}
+Ifaces   == {"I1", "I2", "E"}
+Impl     == {<<"T1", "I1">>, <<"T2", "I1">>, <<"T2", "I2">>, <<"T3", "I2">>, <<"PE", "E">>}
 
 L(n, t, s) == [name |-> n, type |-> t, sub |-> s]
 Ran(f) == {f[i] : i \in DOMAIN f}
